@@ -34,6 +34,7 @@ pub struct RemoteSender {
     remote_id: Uuid,
     node: Text,
     pub lane: String,
+    generation: u64,
 }
 
 impl RemoteSender {
@@ -49,11 +50,21 @@ impl RemoteSender {
             remote_id,
             node,
             lane: Default::default(),
+            generation: 0,
         }
     }
 
     pub fn remote_id(&self) -> Uuid {
         self.remote_id
+    }
+
+    /// Distinguishes the senders of successive registrations of the same remote ID.
+    pub fn generation(&self) -> u64 {
+        self.generation
+    }
+
+    pub fn set_generation(&mut self, generation: u64) {
+        self.generation = generation;
     }
 
     /// Set the name of the lane for the next message that is sent. This is done separately from
